@@ -65,9 +65,10 @@ Definition site_discharge : list (psite * ptag) := [
   ((exporter +++ "seaorm/mod.rs", "relation_field_defs_with_schema", "index", 1), len1);
   ((exporter +++ "seaorm/mod.rs", "render_entity", "recursion", 1), delegation);
   ((exporter +++ "seaorm/mod.rs", "render_entity_with_schema", "recursion", 1), delegation);
-  ((exporter +++ "seaorm/mod.rs", "resolve_fk_target", "index", 2),
+  ((exporter +++ "seaorm/mod.rs", "resolve_fk_chain", "index", 2),
      GuardedByCheck "ref_columns[0] behind the early return on ref_columns.len() != 1; cols[0] behind cols.len() == 1");
-  ((exporter +++ "seaorm/mod.rs", "resolve_fk_target", "recursion", 1), KnownPanic "C16-seaorm-fk-cycle");
+  ((exporter +++ "seaorm/mod.rs", "resolve_fk_chain", "recursion", 1),
+     BoundedRecursion "every call pushes a (table, column) node that was not in `visited` and that carries a single-column FK (fix c0929b8): at most one call per such node; modelled: Names.resolve_fk_chain, theorem resolve_fk_terminates");
   ((exporter +++ "seaorm/mod.rs", "reverse_relation_field_defs", "index", 1), len1);
   ((exporter +++ "seaorm/mod.rs", "single_column_index_set", "index", 1), len1);
   ((exporter +++ "seaorm/mod.rs", "single_column_unique_set", "index", 1), len1);
